@@ -291,6 +291,37 @@ theorem c18_candidates_in_band (g j : Nat) (G : Grp F) (evs : List (Ev F)) (lt f
       · rw [List.mem_zipIdx_iff_getElem?]; exact he
       · cases c; rfl
 
+/-- **every row of the full candidate table comes from the candidate selection of its own group and dataset**
+(`itertools.product(enumerate(shg_list), enumerate(data_list))`), so `c18_candidates_in_band` applies to it. -/
+theorem c18_table_sound (grps : List (Grp F)) (nDs : Nat) (evs : Nat → Nat → List (Ev F)) (lt : Nat → F) (fac : F)
+    (tab : List (Cand × F)) (h : tableRaw grps nDs evs lt fac = some tab) :
+    ∀ cw ∈ tab, ∃ G t, grps[cw.1.shg]? = some G ∧ cw.1.ds < nDs ∧
+      groupCands cw.1.shg cw.1.ds G (evs cw.1.shg cw.1.ds) (lt cw.1.ds) fac = some t ∧ cw ∈ t := by
+  intro cw hcw
+  unfold tableRaw at h
+  rcases C18.foldl_table (fun gj : (Grp F × Nat) × Nat => groupCands gj.1.2 gj.2 gj.1.1 (evs gj.1.2 gj.2) (lt gj.2) fac)
+      _ [] tab h cw hcw with h0 | ⟨gj, hgj, t, ht, hmem⟩
+  · simp at h0
+  · simp only [List.mem_flatMap, List.mem_map, List.mem_range] at hgj
+    obtain ⟨gk, hgk, j, hj, rfl⟩ := hgj
+    rw [List.mem_zipIdx_iff_getElem?] at hgk
+    simp only at ht
+    -- the tags of the row are those of the pair it was produced for
+    have htag : cw.1.shg = gk.2 ∧ cw.1.ds = j := by
+      unfold groupCands at ht
+      split at ht
+      · exact absurd ht (by simp)
+      · simp only [Option.some.injEq] at ht
+        subst ht
+        simp only [List.mem_flatMap, List.mem_map] at hmem
+        obtain ⟨_, _, _, _, rfl⟩ := hmem
+        exact ⟨rfl, rfl⟩
+    obtain ⟨e1, e2⟩ := htag
+    refine ⟨gk.1, t, ?_, ?_, ?_, hmem⟩
+    · rw [e1]; exact hgk
+    · rw [e2]; exact hj
+    · rw [e1, e2]; exact ht
+
 end table
 
 /-- source batches of positive size cover all sources (`n_batches = ceil(n_sources / src_batch_size)`) -/
@@ -365,6 +396,42 @@ theorem c18_all_valid (right : Bool) (cands : List Cand) (cdf : List F) (valid :
       exact (g2 e he).2 rc hrc
 
 end gen
+
+section field
+variable {K : Type} [Field K] [LinearOrder K] [IsStrictOrderedRing K]
+
+/-- **no IndexError when drawing**: with one weight per candidate (non-negative, positive sum) and deviates in
+`[0,1)` every draw of `RandomChoice` hits an existing row. -/
+theorem c18_draw_no_error (cands : List Cand) (wn : List K) (hlen : cands.length = wn.length)
+    (hnn : ∀ x ∈ wn, 0 ≤ x) (hs : 0 < wn.sum) :
+    ∀ us : List K, (∀ u ∈ us, 0 ≤ u ∧ u < 1) → ∃ rows, drawRows true cands (normCdf wn) us = some rows := by
+  intro us
+  induction us with
+  | nil => intro _; exact ⟨[], rfl⟩
+  | cons u us ih =>
+    intro hu
+    obtain ⟨rows, hr⟩ := ih (fun v hv => hu v (by simp [hv]))
+    obtain ⟨x, hx, _⟩ := C18.choice_valid wn u hnn hs (hu u (by simp)).1 (hu u (by simp)).2
+    have hi : search true (normCdf wn) u < cands.length := by
+      rw [hlen]; exact (List.getElem?_eq_some_iff.mp hx).1
+    refine ⟨(search true (normCdf wn) u, cands[search true (normCdf wn) u]) :: rows, ?_⟩
+    simp only [drawRows, List.getElem?_eq_getElem hi, hr, Option.map_some]
+
+/-- **events, sources and datasets of zero weight are never injected**: with the CDF built from non-negative
+candidate weights `wn` (positive sum) and deviates in `[0,1)`, every returned event — first draw or redraw —
+is a candidate row of positive weight. -/
+theorem c18_zero_weight_never_injected (cands : List Cand) (wn : List K) (valid : Nat → Bool)
+    (n : Nat) (us : List K) (nsig : Nat) (out : List (Nat × List (Nat × Cand))) (rest : List K)
+    (hnn : ∀ x ∈ wn, 0 ≤ x) (hs : 0 < wn.sum) (hu : ∀ u ∈ us, 0 ≤ u ∧ u < 1)
+    (h : generate true cands (normCdf wn) valid n us = some (nsig, out, rest)) :
+    ∀ e ∈ out, ∀ rc ∈ e.2, ∃ x, wn[rc.1]? = some x ∧ 0 < x := by
+  intro e he rc hrc
+  obtain ⟨u, hU, hr⟩ := C18.generate_from true cands (normCdf wn) valid (fun u => 0 ≤ u ∧ u < 1)
+    n us nsig out rest hu h e he rc hrc
+  rw [hr]
+  exact C18.choice_valid wn u hnn hs hU.1 hU.2
+
+end field
 
 /-! ## 5. relocation keeps the true-to-reconstructed separation (ℝ) -/
 
